@@ -71,7 +71,7 @@ def json_value_for(rng, t, desc, depth=0):
 
 
 class OpGen:
-    def __init__(self, rng, desc, size=3, p_fragment=0.35, p_directive=0.25, p_alias=0.25, p_avoid_v2=0.9):
+    def __init__(self, rng, desc, size=3, p_fragment=0.35, p_directive=0.25, p_alias=0.25, p_avoid_v2=0.3):
         self.p_avoid_v2 = p_avoid_v2
         self.rng = rng
         self.desc = desc
@@ -315,7 +315,65 @@ class OpGen:
             self.frag_done[name] = True
             self.frag_defs.append((name, cond, body))
         self.features.add("fragment-spread")
+        if r.random() < 0.4:
+            return self.multi_spread(name, tname)
         return "..." + name + self.directives()
+
+    def cond_dir(self, enabled):
+        """text of ONE @skip/@include that evaluates to `enabled`, as a literal or through a fresh variable"""
+        r = self.rng
+        use_skip = r.random() < 0.5
+        truth = (not enabled) if use_skip else enabled
+        if r.random() < 0.5:
+            val = "true" if truth else "false"
+        else:
+            name = "b%d" % self.nvar
+            self.nvar += 1
+            if r.random() < 0.75:
+                self.vars[name] = {"type": "Boolean!", "default": None, "provided": True, "value": truth}
+            else:
+                self.vars[name] = {"type": "Boolean", "default": "true" if truth else "false", "provided": False, "value": None}
+            val = "$" + name
+            self.features.add("directive-variable")
+        return "@%s(if: %s)" % ("skip" if use_skip else "include", val)
+
+    def multi_spread(self, name, tname):
+        """the SAME fragment spread several times in one selection set under different conditions (literal and
+        variable), directly, inside inline fragments and through another fragment; a disabled first spread followed
+        by an enabled one is the frequent shape (a visited-set updated too early would drop the second)."""
+        r = self.rng
+        k = r.randint(2, 3)
+        flags = [r.random() < 0.5 for _ in range(k)]
+        if r.random() < 0.6:
+            flags[0] = False
+        if r.random() < 0.8:
+            flags[-1] = True
+        parts = []
+        for i, en in enumerate(flags):
+            d = "" if (en and r.random() < 0.3) else " " + self.cond_dir(en)
+            sp = "..." + name + d
+            w = r.random()
+            if w < 0.2:
+                sp = "... { " + sp + " }"
+                self.features.add("multi-spread-nested-inline")
+            elif w < 0.35 and kind_of(self.desc, tname) in ("object", "interface", "union"):
+                sp = "... on " + tname + " { " + sp + " }"
+                self.features.add("multi-spread-nested-inline")
+            elif w < 0.5 and kind_of(self.desc, tname) in ("object", "interface", "union"):
+                g = "G%d" % self.nfrag
+                self.nfrag += 1
+                self.frag_types[g] = tname
+                self.frag_done[g] = True
+                self.frag_defs.append((g, tname, "{ " + sp + " }"))
+                sp = "..." + g + ("" if r.random() < 0.5 else " " + self.cond_dir(True))
+                self.features.add("multi-spread-nested-fragment")
+            parts.append(sp)
+            if i + 1 < k and r.random() < 0.6:
+                parts.append("__typename")
+        self.features.add("multi-spread")
+        if not flags[0] and any(flags[1:]):
+            self.features.add("multi-spread-disabled-then-enabled")
+        return " ".join(parts)
 
     frag_done = None
 
@@ -430,6 +488,22 @@ def adversarial_documents(rng, desc, n):
         b = "... on %s { n: %s }" % (it["name"], f2["name"])
         for lab, parts in (("same-key-object-then-abstract", (a, b)), ("same-key-abstract-then-object", (b, a))):
             out.append((lab, "{ %s%s { __typename %s %s } }" % (q["name"], req_args(q), parts[0], parts[1]), {}))
+        # same field, DIFFERENT arguments (the interface field and its implementation share the name)
+        shared = [f for f in li if f.get("args") and any(g["name"] == f["name"] for g in lo)]
+        for f in shared[:1]:
+            ar = rng.choice(f["args"])
+            l1 = default_for(rng, ar["type"], desc)
+            l2 = None
+            for _ in range(6):
+                l2 = default_for(rng, ar["type"], desc)
+                if l2 is not None and l2 != l1:
+                    break
+            if l1 is None or l2 is None or l1 == l2 or "null" in (l1, l2):
+                continue
+            a2 = "... on %s { n: %s(%s: %s) }" % (o["name"], f["name"], ar["name"], l1)
+            b2 = "... on %s { n: %s(%s: %s) }" % (it["name"], f["name"], ar["name"], l2)
+            for lab, parts in (("same-key-object-then-abstract-args", (a2, b2)), ("same-key-abstract-then-object-args", (b2, a2))):
+                out.append((lab, "{ %s%s { __typename %s %s } }" % (q["name"], req_args(q), parts[0], parts[1]), {}))
         break
     for _ in range(n):
         k = rng.randint(0, 13)
